@@ -26,7 +26,7 @@ Definition ex_h : list call :=
   [COpen; ex_tr 1; ex_tr 2; ex_tr 3; CEnable false; ex_tr 4; CEnable true; ex_tr 5; CClose; COpen;
    ex_tr 6; CFini].
 Definition ex_or : list ans :=
-  [default_ans; default_ans; mk_ans false None None 3; mk_ans false None None 0].
+  [default_ans; default_ans; mk_ans false None None 3 false; mk_ans false None None 0 false].
 Definition ex_w : world := run ex_d 16 [] ex_or ex_h.
 
 (* same, the event record type has no payload (its size does not depend on the arguments) *)
